@@ -543,6 +543,10 @@ type violationRec struct {
 }
 
 func finishCheck(ps *PropSpec, tier string, seed int, t0 time.Time, work string, lgs []*loadedGroup, results []taskResult, noReplay, partial bool) int {
+	tierN := 0
+	if tier == "thorough" {
+		tierN = 1
+	}
 	prop := ps.ID
 	inconclusive := []string{}
 	engineErr := []string{}
@@ -656,7 +660,7 @@ func finishCheck(ps *PropSpec, tier string, seed int, t0 time.Time, work string,
 			return rr, nil
 		}
 		for i, v := range viols {
-			rf := ReplayFile{Property: prop, Group: v.Group.g.Name, Harness: v.Harness, Obligation: v.V.ID, Kind: v.V.Kind, Label: v.V.Label, Inputs: v.V.Inputs, Expect: expectOf(v.V)}
+			rf := ReplayFile{Property: prop, Group: v.Group.g.Name, Harness: v.Harness, Obligation: v.V.ID, Kind: v.V.Kind, Label: v.V.Label, Inputs: v.V.Inputs, Expect: expectOf(v.V), Tier: tierN}
 			path := filepath.Join(replayDir, fmt.Sprintf("%s-%d.json", v.Harness, i))
 			b, _ := json.MarshalIndent(rf, "", " ")
 			os.WriteFile(path, b, 0o644)
@@ -696,7 +700,7 @@ func finishCheck(ps *PropSpec, tier string, seed int, t0 time.Time, work string,
 			go func(i int, wr witRec) {
 				defer wg.Done()
 				defer func() { <-sem }()
-				rf := ReplayFile{Property: prop, Group: wr.task.lg.g.Name, Harness: wr.task.name, Obligation: "witness", Inputs: wr.w.Inputs, Expect: "pass"}
+				rf := ReplayFile{Property: prop, Group: wr.task.lg.g.Name, Harness: wr.task.name, Obligation: "witness", Inputs: wr.w.Inputs, Expect: "pass", Tier: tierN}
 				path := filepath.Join(work, fmt.Sprintf("wit-%d.json", i))
 				b, _ := json.Marshal(rf)
 				os.WriteFile(path, b, 0o644)
